@@ -1,8 +1,8 @@
 #!/bin/sh
 # runall.sh <tier> [seed]: runs every claimed check once; prints one line per property.
 tier=${1:-quick}; seed=${2:-1}
-for p in $(python3 -c "import json;print(' '.join(c['property_id'] for c in json.load(open('/verif/MANIFEST.json'))['checks']))"); do
-  out=$(VERIF_SEED=$seed /verif/check $p $tier 2>&1); rc=$?
+for p in $(python3 -c "import json;print(' '.join(c['property_id'] for c in json.load(open('MANIFEST.json'))['checks']))"); do
+  out=$(VERIF_SEED=$seed $(dirname $0)/check $p $tier 2>&1); rc=$?
   echo "$p rc=$rc $(echo "$out" | grep -E "evaluations=" | tail -1)"
   if [ $rc -ne 0 ]; then echo "$out" | grep -E "VIOLATION|INCONCLUSIVE|WARNING" | head -5; fi
   echo "$out" | grep -E "^WARNING" | head -2
